@@ -41,9 +41,9 @@ ASSUMPTIONS = [
     "the number of remaining arguments, and ALLARGS is the list of the remaining arguments (only asserted for "
     "calls with plain positional arguments)",
     "two \\name\\ forms that share a backslash (\\a\\b\\) are not defined by the manual: not generated",
-    "a label private to an expansion never has the name of a global symbol or of a label of an enclosing expansion "
-    "(the manual does not say which one a reference placed before the private definition means; asl takes the outer "
-    "one in pass 1 and does not repeat the pass)",
+    "a label private to an expansion may have the name of a symbol defined earlier outside (scenario 'shadow': references in "
+    "the body, also in front of the private definition, mean the body's own label); names of labels of an *enclosing expansion* "
+    "are still never reused (the manual does not say which one such a reference means)",
     "INTLABEL / __LABEL__ (fourth implicit parameter of the manual) is included although the property text does not "
     "list it; a label produced through __LABEL__ is private to the expansion like every label of a body",
     "source lines stay below 256 characters and never end in a backslash (continuation character)",
@@ -246,7 +246,7 @@ class Gen:
 
 
 SCEN = [(8, "macro"), (4, "rept"), (4, "irp"), (3, "irpn"), (3, "irpc"), (3, "while"), (3, "rec"), (3, "shift"),
-        (3, "many"), (2, "defmac"), (3, "include"), (2, "binclude"), (3, "glob"), (1, "intlabel")]
+        (3, "many"), (2, "defmac"), (3, "include"), (2, "binclude"), (3, "glob"), (1, "intlabel"), (3, "shadow")]
 
 
 class Body:
@@ -803,6 +803,8 @@ def scenario(g, b, kind):
         return rec_scenario(g, b)
     if kind == "shift":
         return shift_scenario(g, b)
+    if kind == "shadow":
+        return shadow_scenario(g, b)
     if kind == "many":
         return many_scenario(g, b)
     if kind == "defmac":
@@ -856,6 +858,35 @@ def rec_scenario(g, b):
     for _ in range(d.int(1, 2)):
         n0 = d.int(0, 4) if d.int(0, 99) < 85 else d.int(8, 14)
         lines.append(g.stmt(g.spell(name), ",".join([str(n0)] + [str(d.int(0, 9)) for _ in extra])))
+    return lines
+
+
+def shadow_scenario(g, b):
+    """a body label with the name of a symbol that is already defined outside, referenced in the body before its
+    private definition (the reference means the body's own label: it is private to the expansion)"""
+    d = g.d
+    nm = g.fresh(d.choice(["slot", "lp", "Tgt"]))
+    bd, wd = d.choice(g.c["byte"]), d.choice(g.c["word"])
+    lines = [g.stmt(bd, str(d.int(1, 9)), nm)]
+    body = []
+    for _ in range(d.int(1, 3)):
+        body.append(g.stmt(wd, g.spell(nm) + d.choice(["", "+1", "+2"])))
+        if d.bool(0.5):
+            body.append(g.stmt(bd, ",".join(str(d.int(0, 99)) for _ in range(d.int(1, 4)))))
+    body.append(g.stmt(bd, str(d.int(10, 99)), g.spell(nm)))
+    if d.bool(0.4):
+        body.append(g.stmt(wd, g.spell(nm)))
+    how = d.weighted([(4, "macro"), (2, "rept"), (2, "irp")])
+    if how == "macro":
+        mn = g.fresh("shw")
+        lines += [mn + g.sp() + "macro"] + body + [b.endm()] + [g.stmt(g.spell(mn))] * d.int(1, 3)
+    elif how == "rept":
+        lines += [g.stmt("rept", str(d.int(1, 3)))] + body + [b.endm()]
+    else:
+        q = g.param_names(1, [])[0]
+        lines += [g.stmt("irp", q + "," + ",".join(str(d.int(0, 9)) for _ in range(d.int(1, 3))))] + body + [b.endm()]
+    if d.bool(0.5):
+        lines.append(g.stmt(wd, g.spell(nm)))          # the outer symbol is still what the rest of the program sees
     return lines
 
 
@@ -1460,6 +1491,12 @@ def fixed_cases(tier):
     out.append(mk("z80", Z + "m macro a,b\n shift\n db a,b\n endm\n m 1,2,3\n", kind="fix-regress"))
     out.append(mk("z80", Z + "m macro a,b\n db ARGCOUNT\n shift\n db a,ARGCOUNT\n db ALLARGS\n endm\n m 1,2,3,4\n", kind="fix-regress"))
     out.append(mk("z80", Z + 'm macro a,b\n shift\n db "A","B",0\n endm\n m 1,2\n', kind="fix-regress"))
+    # a body label that has the name of an already defined outer symbol, referenced before its private definition;
+    # nothing else in these programs asks for a second pass (seeds C11-d / C01-d)
+    for cpu, P, bd, wd in (("z80", Z, "db", "dw"), ("68000", M68, "dc.b", "dc.w"), ("6502", " cpu 6502\n", "byt", "adr")):
+        for cons in ("m macro\n%s endm\n m\n m\n", " rept 2\n%s endm\n", " irp zz,1,2\n%s endm\n"):
+            body = " %s slot\n %s 5\nslot: %s 2,3\n" % (wd, bd, bd)
+            out.append(mk(cpu, P + "slot: %s 1,1\n" % bd + cons % body + " %s slot\n" % wd, kind="shadow"))
     # empty argument at the position of the last formal parameter, excess arguments, SHIFT (seed C11-a)
     for call in ("4,,6", "4,,6,8", ",,6", "4,", "1,2,,3", "4,,,6"):
         out.append(mk("z80", Z + "m macro a,b\n db a+0,b+0,ARGCOUNT\n shift\n db a+0,b+0,ARGCOUNT\n db \"<ALLARGS>\"\n"
